@@ -237,6 +237,17 @@ def Enc.endFlags (cd : Codec α) (cfg : EncCfg) : Nat → BodySt → List (SrcEv
     match Enc.pollFrame cd cfg b evs with
     | (b', evs', _) => Enc.isEndStream b :: Enc.endFlags cd cfg n b' evs'
 
+/-- `n` successive polls in one pass: each poll's result with the `is_end_stream()` seen just
+before it, and the flag after the last poll (`Enc.run` and `Enc.endFlags` are its projections:
+`trace_run`, `trace_flags`). -/
+def Enc.trace (cd : Codec α) (cfg : EncCfg) : Nat → BodySt → List (SrcEv α) → List (Bool × FrameOut) × Bool
+  | 0, b, _ => ([], Enc.isEndStream b)
+  | n + 1, b, evs =>
+    match Enc.pollFrame cd cfg b evs with
+    | (b', evs', o) =>
+      let r := Enc.trace cd cfg n b' evs'
+      ((Enc.isEndStream b, o) :: r.1, r.2)
+
 /-! ### Decoder -/
 
 inductive Dir
